@@ -592,6 +592,18 @@ func tryReplay(o *Obligation, repo, scratch string) (string, bool) {
 	} else {
 		call = fmt.Sprintf("%s(%s)", fn.Name(), callArgs(sig, argExprs))
 	}
+	var oldNames []string
+	if o.Kind == "post" && c.fc != nil {
+		for i, od := range c.fc.Olds {
+			if strings.Contains(od.Expr, "verif") {
+				oldNames = nil
+				break
+			}
+			nm := fmt.Sprintf("old%d", i)
+			sb.WriteString(fmt.Sprintf("\t%s := %s(%s)\n", nm, od.Fn, strings.Join(argExprs, ", ")))
+			oldNames = append(oldNames, nm)
+		}
+	}
 	nres := sig.Results().Len()
 	var resNames []string
 	for i := 0; i < nres; i++ {
@@ -606,12 +618,13 @@ func tryReplay(o *Obligation, repo, scratch string) (string, bool) {
 		sb.WriteString("\t" + call + "\n")
 	}
 	// evaluate postconditions that are executable (no ghost intrinsics)
-	if o.Kind == "post" && c.fc != nil && len(c.fc.Olds) == 0 {
+	if o.Kind == "post" && c.fc != nil && len(oldNames) == len(c.fc.Olds) {
 		for i, en := range c.fc.Ensures {
 			if strings.Contains(en.Expr, "verif") && !strings.Contains(en.Expr, "verifForall") {
 				continue
 			}
 			args := append(append([]string{}, argExprs...), resNames...)
+			args = append(args, oldNames...)
 			sb.WriteString(fmt.Sprintf("\tfmt.Printf(\"VERIF-REPLAY ensures%d=%%v // %s\\n\", %s(%s))\n", i, strings.ReplaceAll(en.Raw, "\"", "'"), en.Fn, strings.Join(args, ", ")))
 		}
 	}
